@@ -104,17 +104,34 @@ pub fn run_search(
     fault_free_only: bool,
     want_digests: bool,
 ) -> BatchResult {
+    run_search_chunked(prop, base, runs, workers, fault_free_only, want_digests, CHUNK, "search")
+}
+
+/// `chunk` runs share one thread.  The ordinary batches use 512; the long-history pass puts all
+/// its runs on a single thread, for state that needs tens of thousands of earlier operations to
+/// go wrong (a cache keyed by a short hash, a counter that wraps).
+#[allow(clippy::too_many_arguments)]
+pub fn run_search_chunked(
+    prop: Prop,
+    base: u64,
+    runs: u64,
+    workers: usize,
+    fault_free_only: bool,
+    want_digests: bool,
+    chunk: u64,
+    origin: &'static str,
+) -> BatchResult {
     let next = AtomicU64::new(0);
     let results: Mutex<Vec<(u64, Stats, Vec<Found>, Vec<serde_json::Value>, Vec<(u64, u64)>)>> =
         Mutex::new(Vec::new());
     std::thread::scope(|scope| {
         for _ in 0..workers.max(1) {
             scope.spawn(|| loop {
-                let start = next.fetch_add(CHUNK, Ordering::Relaxed);
+                let start = next.fetch_add(chunk, Ordering::Relaxed);
                 if start >= runs {
                     break;
                 }
-                let end = (start + CHUNK).min(runs);
+                let end = (start + chunk).min(runs);
                 // every chunk runs on a thread of its own: whatever hidden per-thread state the
                 // code under test may keep, a run can only be influenced by the earlier runs of
                 // its own chunk, which makes "runs start..=i" an exact, replayable history
@@ -139,7 +156,7 @@ pub fn run_search(
                         for v in out.violations {
                             if found.len() < MAX_FOUND {
                                 found.push(Found {
-                                    origin: "search",
+                                    origin,
                                     index: i,
                                     chunk_start: start,
                                     plan: out.effective.clone(),
@@ -245,7 +262,7 @@ pub fn enumerate_value(value: &ValueSpec, stats: &mut Stats, mut f: impl FnMut(&
             } else if fresh {
                 &[FDec::FailTransient, FDec::FailSticky]
             } else {
-                &[FDec::FailTransient, FDec::FailSticky, FDec::Reenter]
+                &[FDec::FailTransient, FDec::FailSticky, FDec::Reenter, FDec::Panic]
             };
             for d in kinds.iter().cloned() {
                 let mut q = p.clone();
@@ -281,6 +298,7 @@ pub fn enumerate_value(value: &ValueSpec, stats: &mut Stats, mut f: impl FnMut(&
                     WDec::Full,
                     WDec::Lost,
                     WDec::Reenter,
+                    WDec::Panic,
                 ]
             };
             if len >= 2 && !reduced {
@@ -449,6 +467,7 @@ pub struct Repro {
 
 pub struct ReproCtx<'a> {
     pub prop: Prop,
+    pub long_base: u64,
     pub search_base: u64,
     pub fault_free_base: u64,
     pub fault_free_only: bool,
@@ -486,9 +505,19 @@ pub fn reproduce(f: &Found, ctx: &ReproCtx) -> Repro {
                     });
                 }
             }
+            "algebra-corpus" => {
+                for v in algebra_values().into_iter().take(f.index as usize) {
+                    let mut plan = Plan::fault_free(v);
+                    plan.reads = ALL_DELIVERIES.iter().map(|d| ReadPlan { delivery: *d, sched: vec![] }).collect();
+                    let out = execute(&plan, None, &mut scratch);
+                    plans.push(out.effective);
+                }
+            }
             origin => {
                 let (base, ff) = if origin == "fault-free-search" {
                     (ctx.fault_free_base, true)
+                } else if origin == "long-history-search" {
+                    (ctx.long_base, false)
                 } else {
                     (ctx.search_base, ctx.fault_free_only)
                 };
@@ -868,6 +897,7 @@ pub fn minimise_with(plan: &Plan, fails: &dyn Fn(&Plan) -> bool) -> (Plan, u64) 
             }
             let simpler = match &best.write_sched[i] {
                 WDec::HardSticky | WDec::Full | WDec::Crash { .. } => Some(WDec::HardTransient),
+                WDec::Panic => None,
                 _ => None,
             };
             if let Some(s) = simpler {
@@ -951,6 +981,45 @@ pub fn corpus_values(prop: Prop, extra_generated: usize, base: u64) -> Vec<Value
         }
     }
     v
+}
+
+/// Set operations over every ordered pair of the special ranges: run once each through the
+/// fault-free plan (baseline, clean write, all deliveries), not through the fault enumeration.
+pub fn algebra_values() -> Vec<ValueSpec> {
+    let mut v = Vec::new();
+    for a in gen::SPECIAL_RANGES {
+        for b in gen::SPECIAL_RANGES {
+            let (ta, tb) = (RSrc::Text((*a).to_string()), RSrc::Text((*b).to_string()));
+            v.push(ValueSpec::range(RSrc::Intersect(Box::new(ta.clone()), Box::new(tb.clone()))));
+            v.push(ValueSpec::range(RSrc::Difference(Box::new(ta), Box::new(tb))));
+        }
+    }
+    v
+}
+
+pub fn run_baseline_only(values: &[ValueSpec]) -> BatchResult {
+    let (stats, found) = in_fresh_thread(|| {
+        let mut stats = Stats::default();
+        let mut found = Vec::new();
+        for (i, v) in values.iter().enumerate() {
+            let mut plan = Plan::fault_free(v.clone());
+            plan.reads = ALL_DELIVERIES.iter().map(|d| ReadPlan { delivery: *d, sched: vec![] }).collect();
+            let out = execute(&plan, None, &mut stats);
+            for viol in out.violations {
+                if found.len() < MAX_FOUND {
+                    found.push(Found {
+                        origin: "algebra-corpus",
+                        index: i as u64,
+                        chunk_start: 0,
+                        plan: out.effective.clone(),
+                        violation: viol,
+                    });
+                }
+            }
+        }
+        (stats, found)
+    });
+    BatchResult { stats, found, samples: vec![], executed: values.len() as u64, digests: vec![] }
 }
 
 pub fn count_kind(stats: &Stats) -> u64 {
